@@ -509,15 +509,15 @@ pub fn cmd_explore(opt: &HashMap<String, String>) -> i32 {
     }
 
     // C06 / C12 / C17: the same life-cycle sweep with only the key or only the value having drop glue
-    if (want(6) || want(12) || want(17)) && !opt.contains_key("no-typevar") && !verdict_reached(&phases) {
+    if (want(2) || want(6) || want(12) || want(17)) && !opt.contains_key("no-typevar") && !verdict_reached(&phases) {
         let depth = if thorough { 4 } else { 3 };
         let r = crate::typevar::explore(depth, sel);
         let mut stats = Stats::default();
         stats.transitions = r.lives;
         stats.executions = r.lives;
-        *stats.rule_evals.entry("C06.type-variant").or_insert(0) += r.lives;
+        *stats.rule_evals.entry("C06.type-variant / C02.type-variant").or_insert(0) += r.lives;
         let cfg = Config { hk: HK::Const, cap: None, limit: usize::MAX };
-        let root = Root { cfg, prefix: vec![], label: "LruCache<tracked K, u64> and LruCache<u32, tracked V>".into() };
+        let root = Root { cfg, prefix: vec![], label: "LruCache<tracked K, u64>, LruCache<u32, tracked V>, LruCache<u8, u64>, LruCache<K, V whose clone is smaller>".into() };
         let violations = r
             .violations
             .into_iter()
@@ -539,7 +539,7 @@ pub fn cmd_explore(opt: &HashMap<String, String>) -> i32 {
             fault_states: 0,
             known: Default::default(),
         };
-        phases.push(Phase { name: format!("type variants: all op sequences <= {depth} x terminal actions x patterns, key-only / value-only drop glue"), result, roots: vec![root], alpha_len: 13, nkeys, fault_props: 0, u: u.clone() });
+        phases.push(Phase { name: format!("type variants: all op sequences <= {depth} (+1 for accounting) over 14 operations; drop glue on key only / value only, padded inline sizes, value whose clone has a smaller size estimate"), result, roots: vec![root], alpha_len: 13, nkeys, fault_props: 0, u: u.clone() });
     }
 
     // C13: parametric families (the quantifier is over a number)
